@@ -154,8 +154,7 @@ def run(ctx, rep):
         total_ops += len(ops)
         total_uses += len(uses)
     # the sink must not be captured by a closure (closures are not straight-line)
-    ids = E._sink_var_ids(fx.bodies[w], sf[w])
-    def sequential_sections_closure(cb_):
+    def sequential_sections_closure(cb_, w=w):
         """`[a, b, c].into_iter().try_for_each(|section| <one sink operation on section>)?`: the closure runs once per array element,
         in order, and the first error ends the sequence and is propagated - the same as the calls written out with `?`"""
         for n_, parents_ in F.walk_with_parents(fx.bodies[w]["body"]):
@@ -166,8 +165,10 @@ def run(ctx, rep):
                 recv = F.strip(n_["args"][0])
                 while recv.get("k") in ("Borrow", "Deref"):
                     recv = F.strip(recv["e"])
+                import re as _re2
                 if not (recv.get("k") == "Call" and "fn" in recv and recv["fn"]["path"].endswith("IntoIterator::into_iter")
-                        and F.strip(recv["args"][0]).get("k") == "Array"):
+                        and (F.strip(recv["args"][0]).get("k") == "Array"
+                             or _re2.match(r"^\[.*; \d+\]$", F.strip(recv["args"][0]).get("ty") or ""))):     # (an array literal or a local of a fixed-size array type)
                     return None
                 verdict = E.consumption(n_, parents_, fx.bodies[w]["body"])
                 if verdict[0] not in ("propagated", "returned"):
@@ -181,12 +182,20 @@ def run(ctx, rep):
                         return "one sink operation per element of a fixed array, in order, errors propagated (%s)" % verdict[0]
                 return None
         return None
-    for cb_ in fx.closures_of(w):
-        cap = [n for n in F.walk(cb_["body"]) if n.get("k") == "Upvar" and n["id"] in ids]
-        why = sequential_sections_closure(cb_) if cap else None
-        rep.check("C15.3", "C15.3/closure-sink/%s" % C.short_fn(cb_["path"]), not cap or why is not None, loc=F.short_file(cb_["sp"]),
-                  found=("sink captured by closure" if why is None else "sink used by the try_for_each closure: " + why) if cap else "closure does not touch the sink",
-                  nontrivial=False, expected="sink operations only in straight-line function bodies")
+    # (in every writer function, not only the entry: a helper that receives the sink can hand it to a closure just as well)
+    for wf_ in writers:
+        ids = E._sink_var_ids(fx.bodies[wf_], sf[wf_])
+        todo_, clos_ = [wf_], []
+        while todo_:
+            for c_ in fx.closures_of(todo_.pop()):
+                clos_.append(c_)
+                todo_.append(c_["path"])
+        for cb_ in clos_:
+            cap = [n for n in F.walk(cb_["body"]) if n.get("k") == "Upvar" and n["id"] in ids]
+            why = sequential_sections_closure(cb_, wf_) if cap else None
+            rep.check("C15.3", "C15.3/closure-sink/%s" % C.short_fn(cb_["path"]), not cap or why is not None, loc=F.short_file(cb_["sp"]),
+                      found=("sink captured by closure" if why is None else "sink used by the try_for_each closure: " + why) if cap else "closure does not touch the sink",
+                      nontrivial=False, expected="sink operations only in straight-line function bodies")
     rep.floor("C15.ops", total_ops, 3, "sink operations on the write path (5 in write + 2 in write_aligned)")
     rep.floor("C15.2", total_uses, 3, "io::Result-typed calls on the write path")
     rep.context["writer_functions"] = [C.short_fn(p) for p in writers]
